@@ -76,16 +76,16 @@ theorem C04_nonempty_mailbox_resolves (s : St) (i : Nat) (o : Op) (ho : s.ops[i]
   cases hmail : o.mail with
   | empty => exact absurd hmail hm
   | ack =>
-    refine ⟨.ack, ({ s with ops := s.ops.set i { o with res := some .ack } } : St), ?_, rfl, by simp, by simp, by simp⟩
+    refine ⟨.ack, ({ s with ops := s.ops.set i { o with res := some .ack } } : St), ?_, by simp [hmail], by simp, by simp, by simp⟩
     simp [step, ho, hres, hph, hmail]
   | frame f =>
-    refine ⟨.frame f, ({ s with ops := s.ops.set i { o with res := some (.frame f) } } : St), ?_, rfl,
+    refine ⟨.frame f, ({ s with ops := s.ops.set i { o with res := some (.frame f) } } : St), ?_, by simp [hmail],
       by simp, by simp, by simp⟩
     simp [step, ho, hres, hph, hmail]
   | dropped =>
     refine ⟨.recvErr, ({ s with
         ops := s.ops.set i { o with res := some .recvErr }
-        chans := dropRxOf s.chans o.chan } : St), ?_, rfl, by simp, by simp, by simp⟩
+        chans := dropRxOf s.chans o.chan } : St), ?_, by simp [hmail], by simp, by simp, by simp⟩
     simp [step, ho, hres, hph, hmail]
 
 /-- a stream whose channel has no sender left gets its queued items and then `EndOfStream` -/
